@@ -15,7 +15,8 @@ RUN_EXPR = "Run.C18.run"
 RULE = ("signatures with 0..4 parameters (names with -/_ variants, defaults that are literals, earlier/later parameters or a global), "
         "optional rest parameter x calls with 0..5 positional arguments, named arguments (known, unknown, -/_ swapped, the rest "
         "parameter's name), list splat (comma/space list, single value, null), a re-splatted argument list captured by a forwarding "
-        "mixin (positional values + keywords, also colliding with explicit keywords) and map splat; plus function bodies with nested @if "
+        "mixin (positional values + keywords, also colliding with explicit keywords) and map splat; a `later-default` family (a default "
+        "naming a LATER parameter that is also a global or undefined, the later one passed by name; through mixins and functions); plus function bodies with nested @if "
         "and @return; distinct = distinct source; non-trivial = always (a binding or an error is expected)")
 EXHAUSTIVE = {"quick": False, "thorough": False}
 TRUSTED = ["Spec/SassArgs.v: reference binder written from the property text",
@@ -113,6 +114,31 @@ def gen_call(rng, sig):
     return {"pos": pos, "named": named, "ls": ls, "ms": ms, "ar": ar}
 
 
+def gen_later_default(rng):
+    """a default that names a LATER parameter (which is also a global: c, d - or not: b, x-y), the later parameter is
+    passed by name and the earlier one falls back to its default: defaults are evaluated left to right, so the default
+    must see the global / be undefined, never the later argument (seeded change C18-1 bound all keywords first)"""
+    later = rng.choice(["c", "d", "c", "d", "b", "x-y"])
+    early = rng.choice([n for n in ["a", "b", "w_z"] if n.replace("-", "_") != later.replace("-", "_")])
+    ref = later if rng.random() < 0.8 else swap(later)
+    params = []
+    npre = rng.choice([0, 1, 1])
+    pre = [n for n in ["a", "b", "w_z", "x-y"] if n not in (early, later)][:npre]
+    for n in pre:
+        params.append([n, None])
+    params.append([early, ["ref", ref]])
+    if rng.random() < 0.3:
+        params.append(["d" if later != "d" else "c", ["lit", gen_atom(rng)]])
+    params.append([later, ["lit", gen_atom(rng)] if rng.random() < 0.8 else None])
+    rest = rng.choice(RESTS) if rng.random() < 0.25 else None
+    pos = [gen_atom(rng) for _ in pre]
+    named = [[later if rng.random() < 0.7 else swap(later), gen_atom(rng)]]
+    if rng.random() < 0.2:
+        named.append(["u", gen_atom(rng)])
+    return {"k": "bind", "sig": {"params": params, "rest": rest},
+            "call": {"pos": pos, "named": named, "ls": None, "ms": None, "ar": None}, "fn": rng.random() < 0.5}
+
+
 def gen_body(rng, depth):
     out = []
     for _ in range(rng.randrange(0, 4)):
@@ -165,6 +191,14 @@ def gen_cases(ctx, tier):
     for _ in range(1500 * mult):
         s = gen_sig(rng)
         cases.append({"k": "bind", "sig": s, "call": gen_call(rng, s)})
+    for _ in range(120 * mult):
+        cases.append(gen_later_default(rng))
+    # seeded/C18-1: @function box($width, $pad: $gap, $gap: 2px), global $gap -> here the global is $c
+    for fn in (False, True):
+        cases.append({"k": "bind", "fn": fn, "sig": S([["a", None], ["b", ["ref", "c"]], ["c", ["lit", ["int", 2]]]]),
+                      "call": C([100], [("c", 5)])})
+        cases.append({"k": "bind", "fn": fn, "sig": S([["a", None], ["b", ["ref", "x-y"]], ["x-y", ["lit", ["int", 2]]]]),
+                      "call": C([100], [("x_y", 5)])})
     for _ in range(200 * mult):
         cases.append({"k": "ret", "body": gen_body(rng, 3)})
     return cases
@@ -208,7 +242,16 @@ def src_of(c):
     if sig["rest"]:
         ps.append("$%s..." % sig["rest"])
         probes.append("pr: inspect($%s); pk: inspect(keywords($%s));" % (sig["rest"], sig["rest"]))
-    pre = ["$g: 77;", "@mixin m(%s) { %s }" % (", ".join(ps), " ".join(probes))]
+    pre = ["$g: 77; $c: 55; $d: 66;", "@mixin m(%s) { %s }" % (", ".join(ps), " ".join(probes))]
+    use_fn = c.get("fn") and call.get("ar") is None
+    if use_fn:
+        # the same binder through functions: one function per probe, every call binds the same arguments
+        pre = ["$g: 77; $c: 55; $d: 66;"]
+        for i, (n, d) in enumerate(sig["params"]):
+            pre.append("@function f%d(%s) { @return inspect($%s); }" % (i, ", ".join(ps), n))
+        if sig["rest"]:
+            pre.append("@function fr(%s) { @return inspect($%s); }" % (", ".join(ps), sig["rest"]))
+            pre.append("@function fk(%s) { @return inspect(keywords($%s)); }" % (", ".join(ps), sig["rest"]))
     args = [v_src(v) for v in call["pos"]] + ["$%s: %s" % (k, v_src(v)) for k, v in call["named"]]
     if call["ls"] is not None:
         pre.append("$l: %s;" % v_src(call["ls"]))
@@ -224,6 +267,12 @@ def src_of(c):
         pre.append("@mixin fwd($fw...) { @include m(%s); }" % ", ".join(args))
         fargs = [v_src(v) for v in ar[0]] + ["$%s: %s" % (k, v_src(v)) for k, v in ar[1]]
         return " ".join(pre) + " q { @include fwd(%s); }" % ", ".join(fargs)
+    if use_fn:
+        al = ", ".join(args)
+        calls = ["p%d: f%d(%s);" % (i, i, al) for i in range(len(sig["params"]))]
+        if sig["rest"]:
+            calls += ["pr: fr(%s);" % al, "pk: fk(%s);" % al]
+        return " ".join(pre) + " q { %s }" % " ".join(calls)
     return " ".join(pre) + " q { @include m(%s); }" % ", ".join(args)
 
 
